@@ -135,12 +135,16 @@ def run(repo, rep, tier):
     return None
   impact = sym.to_sym(ex, make_leaf(fe, custom=leaf_e))
   want_args = ['self._par.n_test', 'len(self.y)', 'self._par.flevel', 'self._par.sig_level', 'self._par.power_level']
-  if call_args.get('args') is not None and any(a.startswith('*') or not re.fullmatch(r"[\w.]+(\([\w.]*\))?", a) for a in call_args['args']) and call_args['args'] != want_args:
-    rep.undecided('R3/arguments', 'estimate_required_impact', 'the multiplier is called as _impact_estimate(%s): the arguments are not plain access paths' % ', '.join(call_args['args'])[:120], fe.loc())
+  args_ = call_args.get('args')
+  if args_ is None:
+    rep.undecided('R3/arguments', 'estimate_required_impact', 'no visible call of self._impact_estimate in the returned expression', fe.loc())
+  elif args_ != want_args and any(a.startswith('*') for a in args_):
+    rep.undecided('R3/arguments', 'estimate_required_impact', 'the multiplier is called as _impact_estimate(%s): the arguments are not plain access paths' % ', '.join(args_)[:120], fe.loc())
   else:
-   rep.check3(None if call_args.get('args') is None else call_args.get('args') == want_args, 'R3/arguments', 'the multiplier is evaluated at (n_test, len(y), flevel, sig_level, power_level)', fe.qualname,
-            '_impact_estimate(%s)' % ', '.join(call_args.get('args') or []), 'the impact multiplier is evaluated at (%s) instead of (%s)'
-            % (', '.join(call_args.get('args') or []), ', '.join(want_args)), fe.loc(), why_open='no visible call of self._impact_estimate in the returned expression')
+    # a closed term over the fields of the object and the operations of the pristine package that differs is a violation;
+    # an argument spelled with anything else (y.size, a helper, a local) is not decided
+    rep.check_term(args_ == want_args, '(%s,)' % ', '.join(args_), (), 'R3/arguments', 'the multiplier is evaluated at (n_test, len(y), flevel, sig_level, power_level)', fe.qualname,
+                   '_impact_estimate(%s)' % ', '.join(args_), 'the impact multiplier is evaluated at (%s) instead of (%s)' % (', '.join(args_), ', '.join(want_args)), fe.loc())
   rep.check3(None if call_args.get('std') is None else call_args.get('std') == ('self.y', '2'), 'R2/dependence', 'sigma uses std(y, ddof=2)', fe.qualname, 'np.std%s' % (call_args.get('std'),),
              'the residual scale is built from std%s, not from std(self.y, ddof=2)' % (call_args.get('std'),), fe.loc(),
              why_open='no visible numpy.std call in the returned expression of estimate_required_impact')
@@ -159,7 +163,7 @@ def run(repo, rep, tier):
     if isinstance(e, ast.Name):
       d = ctx3.rd.single_def(r3, e.id)
       if d is not None and d.how == 'unpack' and d.index is not None and d.value is not None \
-          and norm(ctx3.rd.expand(d.node, d.value)[0]) in ('self.pretestfit', 'self._pretestfit') and d.index < len(fit_fields):
+          and norm(ctx3.rd.expand(d.node, d.value)[0]) in ('self.pretestfit', 'self._pretestfit') and 0 <= d.index < len(fit_fields):
         return fit_fields[d.index]
     return None
   sigma = sym.symbol('sigma', True)
